@@ -1,11 +1,30 @@
 """C16 - counters and size views agree with what happened."""
-import storecheck
+import os
+import storecheck, storelib, vlib
+
+
+def extra(work, v, thorough):
+    """The striped counter: Counter.tla model-checked (the plain-store design must violate), concurrent bursts on the
+    real counter and on Stats() validated by TLC (CounterTrace)."""
+    mc = storelib.tlc_mc(work, "CounterMC.cfg", module="Counter", tag="counter_mc")
+    bad = vlib.run_tlc(work, "Counter", "CounterMC_plainstore.cfg", workers=2, timeout=300, tag="counter_plainstore")
+    if bad.violation != "NoLostUpdate":
+        raise vlib.MachineryError("Counter.tla: the plain-store design does not violate NoLostUpdate (got %r)" % (bad.violation,))
+    out = storelib.run_driver(work, "TestVerif_CounterBurst", "counter", env={"VERIF_N": 30 if thorough else 6, "VERIF_SEED": vlib.seed()})
+    tf = os.path.join(out, "counter.ndjson")
+    res = storelib.validate(work, tf, "counter", module="CounterTrace", cfg="CounterTrace.cfg")
+    storelib.report(v, work, "C16", tf, res)
+    return {"counter_states": mc.distinct, "counter_transitions": mc.generated, "concurrent_bursts_validated": res["traces"],
+            "_states": mc.distinct, "_trans": mc.generated, "_traces": res["traces"]}
 
 PLAN = {
     "mc": [("StoreMC_acct.cfg", False)],
     "sims": [("StoreSim_acct.cfg", 120, 800, 61)],
-    "drivers": [("TestVerif_StoreFree", 10, 60, "store_free.ndjson", None)],
+    "drivers": [("TestVerif_StoreFree", 10, 60, "store_free.ndjson", None), ("TestVerif_StoreClose", 20, 150, "store_close.ndjson", None)],
+    "extra": extra,
     "assumptions": [
+        "concurrency of the counters: Counter.tla (load / compare-and-swap per stripe) model-checked for 3 processes, 2 stripes, 5 additions; 8-64 goroutines add 20 000-80 000 times each to a real UnsignedCounter and read a real cache 5 000-25 000 times each, the totals are compared after they joined",
+        "a closed cache holds nothing: Len and Range begun after Close returned must report 0 / visit nothing (close driver)",
         "hit/miss counters, Len, EstimatedSize and Range are compared with the observer's own ledger at quiescent points (all calls returned, Wait done); Range and Len calls that overlap other calls or evictions are only checked for per-visit correctness",
         "the model-level part is the accounting invariant of Store.tla (EstimatedSize = policy total = resident cost at quiescence)",
     ],
